@@ -200,7 +200,7 @@ pub fn run(tier: Tier, seed: u64) -> i32 {
         let code = inputs_seed.wrapping_mul(7).wrapping_add(i * 5 + 3);
         let inputs: Vec<Vec<bool>> = (0..n).map(|p| vec![code >> (2 * p) & 1 == 1, code >> (2 * p + 1) & 1 == 1]).collect();
         let base = MpcCase::simple(circ(n, variant), inputs, p_eval, p_out);
-        let mac_bits: Vec<u32> = tier.pick(vec![0, 127], vec![0, 1, 63, 64, 100, 127]);
+        let mac_bits: Vec<u32> = tier.pick(vec![0, 127], (0..128).collect());
         match entries(&base, corrupt, &mac_bits) {
             Ok(e) => all.extend(e),
             Err(e) => {
